@@ -76,8 +76,17 @@ for p in props:
                 titles.append('  - ' + t[:200])
         head, rest = tpl.split('NOTE:', 1)
         _, tail = rest.split('Requirements for each change', 1)
-        note = ('NOTE: two rounds of harmless edits for this property already exist; do NOT repeat these, use DIFFERENT kinds '
-                'of edit and, where possible, different functions:\n') + '\n'.join(titles) + '\n' + BENIGN_EXTRA + '\n'
+        try:
+            recent = json.load(open('/verif/scripts/prompts/recent_rule_functions.json')).get(pid, [])
+        except (OSError, ValueError):
+            recent = []
+        where = ''
+        if recent:
+            where = ('This round, place your edits IN these functions (they are the ones most recently put under scrutiny), one '
+                     'edit per function where possible, each edit changing the statements that do the real work there (the '
+                     'condition, the loop, the call and its arguments, the error handling), not just a log line:\n  - ' + '\n  - '.join(recent) + '\n')
+        note = ('NOTE: %d harmless edits for this property already exist (three rounds); do NOT repeat these, use DIFFERENT kinds '
+                'of edit:\n' % len(titles)) + '\n'.join(titles) + '\n' + where + BENIGN_EXTRA + '\n'
         text = head + note + 'Requirements for each change' + tail
     open(os.path.join(out, pid + '.prompt.txt'), 'w').write(text)
     print(pid, len(text))
